@@ -188,7 +188,23 @@ def make_ext(I, cs, typ, name):
 
 
 def async_generator(I, fv, args, kwargs):
-    raise Unsupported("async generator")
+    """use of an async generator by its contract: a list of yielded values, possibly ended by a declared exception"""
+    cs = I.contracts
+    c = cs.contracts.get(fv.qualname) if cs is not None else None
+    if c is None or not c.yields:
+        raise Unsupported(f"async generator {fv.qualname} needs a contract with `yields`")
+    loc = I.bind_params(fv, args, kwargs)
+    sfr = cs.clause_frame(c, loc)
+    for k, src in enumerate(c.requires):
+        t = cs.eval_clause(I, c, src, sfr, assuming=False)
+        I.path.oblige(f"{I.verifying}.call.{c.target.split('.', 1)[-1]}.pre.{k}", t.term(), {"clause": src, "callee": c.target})
+        I.path.assume(t.term())
+    from . import symlist
+    items = symlist.make(I, cs, c.yields, "yielded_" + fv.qualname.split(".")[-1])
+    env_step(I)
+    cs.havoc_modifies(I, c, sfr, c.modifies)
+    I.hobj(items).meta["raises_at_end"] = list(c.raises)
+    return items
 
 
 def bytes_decode(I, vb, args, kw):
@@ -309,14 +325,16 @@ def aes_attr(I, ref, o, name):
     return VBuiltin("aes." + name, ref)
 
 
-def aes_call(I, fv, args, kw):
+def aes_call(I, fv, args, kw, total=False):
     o = I.hobj(fv.self_val)
     name = fv.name.split(".")[-1]
     data = I.resolve(args[0])
     if not isinstance(data, VBytes):
         I.raise_py("builtins.TypeError", "data must be bytes")
     n = data.length()
-    if isinstance(n, int):
+    if total:
+        pass        # specification-level use: a total uninterpreted function (unspecified on unaligned data)
+    elif isinstance(n, int):
         if n % 16:
             I.raise_py("builtins.ValueError", "Data must be aligned to block boundary")
     elif I.path.branch(_iv(n) % 16 != 0, "aes_block"):
@@ -441,7 +459,7 @@ def _spec_aes(mode, op):
         key, data = args
         kwargs = {"iv": VBytes.lit(bytes(16))} if mode == AES_MODE_CBC else {}
         c = aes_new(I, None, [key, mkint(mode)], kwargs)
-        return aes_call(I, VBuiltin("aes." + op, c), [data], {})
+        return aes_call(I, VBuiltin("aes." + op, c), [data], {}, total=True)
     return f
 
 
@@ -465,14 +483,18 @@ SPEC_LIB = {
 # datetime / timedelta (ghost clock)
 # ===============================================================================================
 
+def clock_now(I):
+    t = I.path.ghost.get("clock")
+    if t is None:
+        t = z3.Int(fresh("clock"))
+        I.path.ghost["clock"] = t
+    return t
+
+
 def dt_now(I, fv, args, kw):
-    used(I, "datetime.now: ghost clock, non-decreasing across reads; calendar fields within their documented ranges")
-    t = z3.Int(fresh("clock"))
-    prev = I.path.ghost.get("clock")
-    if prev is not None:
-        I.path.assume(t >= prev)
-    I.path.ghost["clock"] = t
-    return make_datetime(I, t)
+    used(I, "datetime.now: ghost clock; it advances (by any amount, never backwards) only while the coroutine is suspended at an await; "
+            "calendar fields within their documented ranges")
+    return make_datetime(I, clock_now(I))
 
 
 def make_datetime(I, t):
@@ -679,7 +701,11 @@ def transport_call(I, fv, args, kw):
 
 
 def env_step(I):
-    """something may have happened while the coroutine was suspended: transports may have started closing"""
+    """something may have happened while the coroutine was suspended: time passed, transports may have started closing"""
+    t0 = clock_now(I)
+    t1 = z3.Int(fresh("clock"))
+    I.path.assume(t1 >= t0)
+    I.path.ghost["clock"] = t1
     for ref, o in list(I.path.heap.items()):
         if o.kind == "ext" and o.meta.get("tag") == "transport":
             c = o.meta["closing"]
